@@ -1095,7 +1095,12 @@ impl SparqlDatabase {
                     };
 
                     let subject = this.turtle_term_value(s_raw);
-                    let predicate = this.turtle_term_value(p_raw);
+                    // `a` in predicate position is rdf:type, as in the N-Triples line reader
+                    let predicate = if p_raw == "a" {
+                        "http://www.w3.org/1999/02/22-rdf-syntax-ns#type".to_string()
+                    } else {
+                        this.turtle_term_value(p_raw)
+                    };
                     let object = this.turtle_term_value(&object_part);
 
                     // Emit the main triple
@@ -1824,7 +1829,11 @@ impl SparqlDatabase {
 
                         // Resolve terms and store the triple
                         let resolved_subject = self.resolve_term(&subject);
-                        let resolved_predicate = self.resolve_term(&predicate);
+                        let resolved_predicate = if predicate == "a" {
+                            "http://www.w3.org/1999/02/22-rdf-syntax-ns#type".to_string()
+                        } else {
+                            self.resolve_term(&predicate)
+                        };
                         let resolved_object = self.resolve_term(&object);
 
                         let mut dict = self.dictionary.write().unwrap();
